@@ -241,10 +241,135 @@ theorem freezeLoop_spec (get : Nat → Option Block) (thr : Nat) (fuel n : Nat) 
         cases hl : frozen.getLast? with
         | none => simpa using hrec
         | some t =>
-          by_cases hp : t.id ≠ b.parent
-          · simp only [hp, if_true]
-            exact ⟨[], by simp, by simp; omega, by simp⟩
-          · simp only [hp, if_false]
-            exact hrec
+          by_cases hp : t.id = b.parent
+          · simpa [hp] using hrec
+          · exact ⟨[], by simp [hp], by simp; omega, by simp⟩
+
+end CkbVerif.Freeze
+
+namespace CkbVerif.Freeze
+open CkbVerif.Store
+
+/-! ### the model's `freeze` function is a run of micro-steps -/
+
+theorem Steps.head {s t u : FS} (st : Step s t) (rest : Steps t u) : Steps s u := by
+  induction rest with
+  | refl => exact Steps.tail (Steps.refl s) st
+  | tail _ st' ih => exact Steps.tail ih st'
+
+theorem Steps.trans {s t u : FS} (a : Steps s t) (b : Steps t u) : Steps s u := by
+  induction b with
+  | refl => exact a
+  | tail _ st ih => exact Steps.tail ih st
+
+theorem getUnfrozen_of_main (s : FS) (h : Inv s) (n : Nat) (b : Block) (hg : getUnfrozen s n = some b) :
+    s.v.m.index b.number = some b.id ∧ s.v.r.bodies b.id = some b ∧ b.number = n := by
+  unfold getUnfrozen at hg
+  cases hi : s.v.m.index n with
+  | none => rw [hi] at hg; cases hg
+  | some id =>
+    rw [hi] at hg
+    simp only at hg
+    split at hg
+    · have hid := h.idOk id b hg
+      have hn := h.numOk n id b hi hg
+      rw [hid, hn]; exact ⟨hi, hid ▸ hg, rfl⟩
+    · cases hg
+
+theorem steps_appends (s : FS) (new : List Block)
+    (hget : ∀ k b, new[k]? = some b → getUnfrozen s (frozenNumber s + k) = some b) :
+    Steps s { s with frozen := s.frozen ++ new } := by
+  induction new generalizing s with
+  | nil => simpa using Steps.refl s
+  | cons b rest ih =>
+    have h0 : getUnfrozen s (frozenNumber s) = some b := by simpa using hget 0 b (by simp)
+    have hstep : Step s (appendOne s b) := Step.append s b h0
+    have hrest := ih (appendOne s b) (by
+      intro k b' hk
+      have := hget (k + 1) b' (by simpa using hk)
+      have hf : frozenNumber (appendOne s b) + k = frozenNumber s + (k + 1) := by
+        simp [frozenNumber, appendOne]; omega
+      rw [hf]
+      exact this)
+    have heq : ({ appendOne s b with frozen := (appendOne s b).frozen ++ rest } : FS)
+        = { s with frozen := s.frozen ++ b :: rest } := by
+      simp [appendOne]
+    rw [heq] at hrest
+    exact Steps.head hstep hrest
+
+theorem steps_wipeBodies (s : FS) (l : List Block)
+    (hfro : ∀ b ∈ l, ∃ (k : Nat) (fb : Block), s.frozen[k]? = some fb ∧ fb.id = b.id) :
+    Steps s (l.foldl (fun s b => wipeBody s b.id) s) := by
+  induction l generalizing s with
+  | nil => exact Steps.refl s
+  | cons b rest ih =>
+    simp only [List.foldl_cons]
+    have hstep : Step s (wipeBody s b.id) := Step.wipeBody s b.id (hfro b (by simp))
+    exact Steps.head hstep (ih (wipeBody s b.id) (fun b' hb' => hfro b' (List.mem_cons_of_mem _ hb')))
+
+theorem steps_wipeSides (s : FS) (ids : List Nat) (hs : ∀ x ∈ ids, ∀ blk, ¬ OnMain s x blk) :
+    Steps s (ids.foldl wipeSide s) := by
+  induction ids generalizing s with
+  | nil => exact Steps.refl s
+  | cons x rest ih =>
+    simp only [List.foldl_cons]
+    have hstep : Step s (wipeSide s x) := Step.wipeSide s x (hs x (by simp))
+    exact Steps.head hstep (ih (wipeSide s x) (fun y hy blk => hs y (List.mem_cons_of_mem _ hy) blk))
+
+theorem onMain_foldl_wipeBody (s : FS) (l : List Block) (id : Nat) (blk : Block) :
+    OnMain (l.foldl (fun s b => wipeBody s b.id) s) id blk ↔ OnMain s id blk := by
+  induction l generalizing s with
+  | nil => exact Iff.rfl
+  | cons b rest ih => simp only [List.foldl_cons]; exact (ih (wipeBody s b.id)).trans Iff.rfl
+
+/-- every pass of the model's `freeze` is a sequence of the micro-steps, so everything proved for
+`Steps` (and for every prefix = crash point) holds for it -/
+theorem freeze_is_steps (s : FS) (h : Inv s) : Steps s (freeze s).1 := by
+  unfold freeze
+  cases hthr : threshold s with
+  | idle => exact Steps.refl s
+  | panic => exact Steps.refl s
+  | «at» thr =>
+    simp only
+    obtain ⟨new, h1, _, h3⟩ := freezeLoop_spec (getUnfrozen s) thr (thr + 1) (frozenNumber s) s.frozen
+    cases hloop : freezeLoop (getUnfrozen s) thr (thr + 1) (frozenNumber s) s.frozen with
+    | mk frozen' err =>
+      rw [hloop] at h1
+      simp only at h1
+      subst h1
+      have happ := steps_appends s new h3
+      cases err with
+      | true => simpa using happ
+      | false =>
+        simp only [Bool.false_eq_true, if_false]
+        have hdrop : (s.frozen ++ new).drop s.frozen.length = new := by simp
+        rw [hdrop]
+        let s1 : FS := { s with frozen := s.frozen ++ new }
+        have hinv1 : Inv s1 := inv_steps h happ
+        -- the newly frozen blocks are frozen in s1
+        have hfro : ∀ b ∈ new, ∃ (k : Nat) (fb : Block), s1.frozen[k]? = some fb ∧ fb.id = b.id := by
+          intro b hb
+          obtain ⟨k, hk⟩ := List.getElem?_of_mem hb
+          refine ⟨s.frozen.length + k, b, ?_, rfl⟩
+          show (s.frozen ++ new)[s.frozen.length + k]? = some b
+          rw [List.getElem?_append_right (by omega)]
+          simpa using hk
+        have hbodies := steps_wipeBodies s1 new hfro
+        have hside : ∀ x ∈ sideOf s1 new, ∀ blk,
+            ¬ OnMain (new.foldl (fun s b => wipeBody s b.id) s1) x blk := by
+          intro x hx blk hm
+          rw [onMain_foldl_wipeBody] at hm
+          simp only [sideOf, List.mem_filter, List.any_eq_true, Bool.and_eq_true, beq_iff_eq, bne_iff_ne] at hx
+          obtain ⟨_, b, hb, hnum, hne⟩ := hx
+          obtain ⟨k, hk⟩ := List.getElem?_of_mem hb
+          obtain ⟨hi, _, _⟩ := getUnfrozen_of_main s h _ b (h3 k b hk)
+          have hm' : OnMain s x blk := hm
+          have hxnum : numberOfId s1 x = blk.number := by
+            simp [numberOfId, numberOf, s1, hm'.1]
+          rw [hxnum] at hnum
+          have := hm'.2
+          rw [hnum, hi] at this
+          exact hne (Option.some.inj this).symm
+        exact Steps.trans happ (Steps.trans hbodies (steps_wipeSides _ _ hside))
 
 end CkbVerif.Freeze
